@@ -36,13 +36,16 @@ def run_check(prop, tier, seed, seconds, tmp):
 
 
 def main():
+    global SEEDED
     ap = argparse.ArgumentParser()
     ap.add_argument('--only')
     ap.add_argument('--tier', default='quick')
     ap.add_argument('--seeds', default='0')
     ap.add_argument('--seconds', type=float)
     ap.add_argument('--demo', action='store_true', help='also run each demo.py with and without the patch')
+    ap.add_argument('--dir', default=str(SEEDED), help='directory of <name>/patch.diff + meta.json (default /verif/seeded; own catalogue: selftest/patches)')
     a = ap.parse_args()
+    SEEDED = pathlib.Path(a.dir).resolve()
     names = sorted(d.name for d in SEEDED.iterdir() if (d / 'patch.diff').exists())
     if a.only:
         names = [n for n in names if n in a.only.split(',')]
